@@ -3,10 +3,12 @@ import WV.Proofs.C16
 namespace WV.Proofs.C16
 open WV WV.Gen WV.C16
 
-theorem inv_tick {T : Nat} {s s' : St} (hT : 1 ≤ T) (hi : Inv T s)
-    (h : step (Cfg.real T) s .tick = (s', none)) : Inv T s' := by
+theorem tick_eq_stall (cfg : Cfg) (s : St) : step cfg s .tick = step cfg s (.stall 1) := rfl
+
+theorem inv_stall {T n : Nat} {s s' : St} (hT : 1 ≤ T) (hi : Inv T s)
+    (h : step (Cfg.real T) s (.stall n) = (s', none)) : Inv T s' := by
   obtain ⟨h1, h2, h3, h4, h5, h6, h7, h8, h9, h10, h11, h12, h13⟩ := hi
-  simp only [step, tick] at h
+  simp only [step, stall] at h
   cases htm : s.timer with
   | none =>
     simp [htm] at h
@@ -21,8 +23,8 @@ theorem inv_tick {T : Nat} {s s' : St} (hT : 1 ≤ T) (hi : Inv T s)
       | none => simp_all
       | some b => cases b <;> simp_all
     simp only [htm] at h
-    by_cases hdue : d ≤ s.now + 1
-    · have hde : d = s.now + 1 := by omega
+    by_cases hdue : (d ≤ s.now + n)
+    case pos =>
       simp only [hdue, if_true, timerExpired, ttInput, real_tbl] at h
       rcases htr hl with htr | htr
       · simp [htr, TrafficTimer.table, ttOutputs, sendPingResetTimer, sendPing, ho] at h
@@ -33,7 +35,14 @@ theorem inv_tick {T : Nat} {s s' : St} (hT : 1 ≤ T) (hi : Inv T s)
         subst h
         constructor <;> simp_all [inUse]
         all_goals grind
-    · simp [hdue] at h
+    case neg =>
+      simp [hdue] at h
       subst h
       constructor <;> simp_all [inUse]
       all_goals grind
+
+theorem inv_tick {T : Nat} {s s' : St} (hT : 1 ≤ T) (hi : Inv T s)
+    (h : step (Cfg.real T) s .tick = (s', none)) : Inv T s' :=
+  inv_stall (n := 1) hT hi (by rw [← tick_eq_stall]; exact h)
+
+end WV.Proofs.C16
